@@ -1,7 +1,8 @@
 ---------------------------- MODULE Gen_TxAuth ----------------------------
 (* Case enumeration for the driver (harness/cmd/c07).  Run with -simulate num=1: the single step writes  *)
 (*   out/b_0.json  the field table (compared with the reflection walk over the real schema); the block   *)
-(*                 plans (pool x via) the check combines with cases and mutations                         *)
+(*                 plans (pool x via x height of the block relative to the effective height of a mark)    *)
+(*                 the check combines with cases and mutations; the mutations of the marked family         *)
 (*   out/b_1.json  every abstract case of part (a)                                                       *)
 (*   out/b_2.json  every single-field mutation of every rich base of part (b)                            *)
 (*   out/b_3.json  part (c): per version the grammar of the code (all deviations on), the structures of  *)
@@ -23,8 +24,9 @@ BaseFull(v) == [n \in Names(v) |-> <<FullItem(SecByName(KA, v, n))>>]
 BaseEmpty(v) == [n \in Names(v) |-> IF SecByName(KA, v, n).list THEN <<>> ELSE <<EmptyItem(SecByName(KA, v, n))>>]
 Wholes(v) == UNION {UNION {{[b EXCEPT ![s.name] = st] : st \in SecStructs(s, 1)} : s \in Rng(Gram(KA, v))} : b \in {BaseFull(v), BaseEmpty(v)}}
 GramDump(v) == [v |-> v, secs |-> [i \in DOMAIN Gram(KA, v) |-> SecDump(v, Gram(KA, v)[i])], wholes |-> SetToSeq(Wholes(v))]
-DumpAll == /\ JsonSerialize("out/b_0.json", <<[op |-> "schema", fields |-> FieldTable, nomut |-> NoMut, pools |-> SetToSeq(Pools), vias |-> SetToSeq(Vias)]>>)
-           /\ JsonSerialize("out/b_1.json", [i \in DOMAIN CaseSeq |-> LET t == CaseOf(CaseSeq[i]) IN [op |-> "case", t |-> t, hon |-> Honest(t)]])
+DumpAll == /\ JsonSerialize("out/b_0.json", <<[op |-> "schema", fields |-> FieldTable, nomut |-> NoMut, pools |-> SetToSeq(Pools), vias |-> SetToSeq(Vias),
+                                                mhs |-> SetToSeq(MarkHeights), mkmuts |-> SetToSeq(MkMuts)]>>)
+           /\ JsonSerialize("out/b_1.json", [i \in DOMAIN CaseSeq |-> LET t == CaseOf(CaseSeq[i]) IN [op |-> "case", t |-> t, hon |-> Honest(t), mk |-> RefMarked(t), acc |-> VerifyCode(K0, t) = "ok"]])
            /\ JsonSerialize("out/b_2.json", MutSeq \o CbSeq)
            /\ JsonSerialize("out/b_3.json", <<GramDump(1), GramDump(2), GramDump(3)>>)
 GNext == phase = "init" /\ DumpAll /\ phase' = "dumped" /\ UNCHANGED <<tx, orig, mut, verdict, subm, blk, hist>>
